@@ -105,9 +105,18 @@ class ValueGen:
         lo, hi = INT_RANGE[e.base or "int32"]
         if e.flags:
             v = 0
-            for _, bit in e.values:
-                if r.chance(0.5):
-                    v |= bit
+            if r.chance(0.4):
+                # any pattern of the bits the symbols mention, whole symbols or not
+                mask = 0
+                for _, bit in e.values:
+                    mask |= bit
+                for b in range(mask.bit_length()):
+                    if mask >> b & 1 and r.chance(0.5):
+                        v |= 1 << b
+            else:
+                for _, bit in e.values:
+                    if r.chance(0.5):
+                        v |= bit
             if r.chance(0.1):
                 cand = v | (1 << r.randint(0, 6))
                 if lo <= cand <= hi:
